@@ -30,6 +30,8 @@ func weights() map[string]int {
 	w["swap_adv"] = 4
 	w["melt_adv"] = 2
 	w["checkstate"] = 1
+	w["swap_fault"] = 3
+	w["mint_fault"] = 2
 	return w
 }
 
